@@ -349,6 +349,79 @@ def _crosscheck(driver: str, cases: list, results: list) -> None:
 
 
 # ------------------------------------------------------------------------------------
+# time limits: an implementation call that does not return is a value, not a hung check
+# ------------------------------------------------------------------------------------
+IMPL_LIMIT = float(os.environ.get("VERIF_IMPL_LIMIT", "30"))
+
+
+class ImplTimeout(BaseException):
+    """raised inside an implementation call that ran longer than IMPL_LIMIT seconds
+    (BaseException: an `except Exception` inside the implementation must not swallow it)"""
+
+
+class time_limit:
+    """with time_limit(): <implementation call>.  Main thread only (elsewhere: no limit)."""
+
+    def __init__(self, seconds: float | None = None):
+        self.seconds = IMPL_LIMIT if seconds is None else seconds
+        self.active = False
+
+    def __enter__(self):
+        import signal
+        import threading
+        if threading.current_thread() is not threading.main_thread() or self.seconds <= 0:
+            return self
+
+        def handler(signum, frame):
+            raise ImplTimeout()
+        self.old_handler = signal.signal(signal.SIGALRM, handler)
+        self.old_timer = signal.setitimer(signal.ITIMER_REAL, self.seconds)
+        self.t0 = time.time()
+        self.active = True
+        return self
+
+    def __exit__(self, *exc):
+        if self.active:
+            import signal
+            signal.setitimer(signal.ITIMER_REAL, 0)
+            signal.signal(signal.SIGALRM, self.old_handler)
+            if self.old_timer[0] > 0:      # an enclosing limit: give it what is left of its time
+                signal.setitimer(signal.ITIMER_REAL, max(0.01, self.old_timer[0] - (time.time() - self.t0)))
+        return False
+
+
+def start_watchdog(ctx: "Ctx") -> None:
+    """Backstop for calls not made under time_limit: if the whole check runs longer than the bound
+    (quick 25 min, thorough 5 h; VERIF_WATCHDOG seconds overrides), report that the property is no
+    longer shown to hold -- with the stack of the main thread in the replay file -- and exit 1."""
+    import threading
+    bound = float(os.environ.get("VERIF_WATCHDOG", "0") or 0) or (1500 if ctx.tier == "quick" else 18000)
+
+    def fire():
+        import traceback
+        frames = sys._current_frames()
+        main = frames.get(threading.main_thread().ident)
+        stack = "".join(traceback.format_stack(main)[-25:]) if main is not None else ""
+        rdir = os.path.join(VERIF, "replays") if os.path.realpath(REPO) == "/repo" \
+            else os.path.join(VERIF, "replays", "other_tree")
+        os.makedirs(rdir, exist_ok=True)
+        path = os.path.join(rdir, f"{ctx.prop}_unproved.json")
+        try:
+            with open(path, "w", encoding="utf-8") as f:
+                json.dump({"property": ctx.prop, "kind": "unproved", "seed": ctx.seed, "tier": ctx.tier,
+                           "no_longer_checks": [f"the check did not finish within {bound:.0f} s: the implementation (or a build "
+                                                "step) does not terminate on some generated input"],
+                           "main_thread_stack": stack[-6000:]}, f, indent=1)
+        except Exception:
+            pass
+        print(f"VIOLATION property={ctx.prop} replay={path} no-failing-input-found", flush=True)
+        os._exit(1)
+    t = threading.Timer(bound, fire)
+    t.daemon = True
+    t.start()
+
+
+# ------------------------------------------------------------------------------------
 # check context: collects evidence and violations, decides exit status
 # ------------------------------------------------------------------------------------
 def canon(x: Any) -> str:
